@@ -391,4 +391,4 @@ if __name__ == '__main__':
                      'pools of 5-8 providers: six hand-picked forests over 8 '
                      'providers in the thorough tier (deep chains in both '
                      'id orders, star, binary, mixed), not all forests'],
-        quick_budget=170, thorough_budget=1700))
+        quick_budget=420, thorough_budget=2400))
